@@ -617,6 +617,36 @@ pub fn c07(c: &mut Ctx) {
                 c.v("C07", "ended-on-its-own", ss, format!("actor {a} ran on_stop while a strong reference existed and no stop/kill/error/panic had occurred"));
             }
         }
+        // "... and only then" has a second half: an actor that ends because nothing refers to it any more begins
+        // on_stop at the virtual instant of the last thing that kept it going - the last strong handle going away, the
+        // hook in progress finishing, the last operation on it completing. Later means that something hidden held it.
+        if let (Some((ss, st, false)), false) = (ar.stop_enter(), stop_invoked) {
+            let in_flight = h.ops.iter().any(|o| o.a == Some(a) && o.inv_seq < ss && o.end_seq().map(|e| e > ss).unwrap_or(true) && (o.tag.is_send() || o.tag == OpTag::Stop));
+            let referenced_at_stop = h.slots_at(ss.saturating_sub(1)).values().any(|s| s.actor == a && s.strong);
+            if !in_flight && !referenced_at_stop {
+                let mut t_ref = 0u64;
+                for e in h.ev.iter().filter(|e| e.seq < ss && matches!(e.k, EvKind::Handle { .. })) {
+                    let before = h.slots_at(e.seq.saturating_sub(1)).values().any(|s| s.actor == a && s.strong);
+                    let after = h.slots_at(e.seq).values().any(|s| s.actor == a && s.strong);
+                    if before && !after {
+                        t_ref = t_ref.max(e.t);
+                    }
+                }
+                let t_hook = ar.hooks.iter().filter(|(s, _, _)| *s < ss).map(|(_, t, _)| *t).max().unwrap_or(0);
+                let t_ops = h
+                    .ops
+                    .iter()
+                    .filter(|o| o.a == Some(a) && o.end_seq().map(|e| e < ss).unwrap_or(false))
+                    .map(|o| o.ret.as_ref().map(|r| r.1).or(o.cancelled.map(|c| c.1)).unwrap_or(0))
+                    .max()
+                    .unwrap_or(0);
+                let cause = t_ref.max(t_hook).max(t_ops);
+                c.chk.hit("C07");
+                if st > cause {
+                    c.v("C07", "end-delayed", ss, format!("actor {a}: the last strong handle went away at t={t_ref}us, its last hook activity was at t={t_hook}us and the last operation on it ended at t={t_ops}us, yet on_stop only began at t={st}us: something hidden kept it alive"));
+                }
+            }
+        }
         // probe phase: messages through remaining strong handles are still served
         if h.phase_end.len() >= 2 {
             let strong_p0: Vec<u32> = table_p0.iter().filter(|(_, s)| s.actor == a && s.strong).map(|(k, _)| *k).collect();
